@@ -70,6 +70,7 @@ func c12DNSReport(t vh.Fataler, rec *vh.Rec, c regprocessor.C12Case, res regproc
 func TestVerif_C12_dns(t *testing.T) {
 	rec := vh.NewRec("C12", "dns", "the bidir / unidir cases (rapid-generated phantom file x registrar configuration x hostile request; no client address; bidirectional iff the client's registration_source says BidirectionalDNS) handed to DNSRegServer.processRequest backed by a real RegProcessor; the client's view is the bidirectional_response of the returned DnsResponse; same oracle; non-trivial as in bidir / unidir; distinct by whole case")
 	defer rec.Flush()
+	defer func() { rec.Extra("open_fds_at_end_sum_over_shards", regprocessor.C12OpenFDs()) }()
 	rec.Require("accepted", "refused", "forged-response", "param-override", "substituted", "station-v6")
 	e := regprocessor.C12NewEnv(t)
 	entry := c12DNSEntry(e)
